@@ -31,7 +31,10 @@ def sample_fn(rec):
 WALKS = {
     "quick": [("MC_C02_q", "MC_C02_be.cfg", {"MaxSegs": 7, "KVals": "{1, 2}"}, ["eager", "lazy"], 4, 16, 8)],
     "thorough": [("MC_C02_q", "MC_C02_be.cfg", {"MaxSegs": 10, "KVals": "{1, 2}"}, ["eager", "lazy"], 4, 320, 11),
-                 ("MC_C02_q", "MC_C02_str.cfg", {"MaxSegs": 8}, ["eager", "lazy"], 1, 160, 9)],
+                 ("MC_C02_q", "MC_C02_str.cfg", {"MaxSegs": 8}, ["eager", "lazy"], 1, 160, 9),
+                 # one very long history (more than 100 segments) over a tiny alphabet, single worker
+                 ("MC_C02_q", "MC_C02_be.cfg", {"MaxSegs": 110, "NVals": "{1}", "KVals": "{1}", "ObjLists": "c_ObjListsStr"},
+                  ["eager", "lazy"], 4, 1, 111)],
 }
 
 
@@ -45,7 +48,7 @@ def run(tier):
         run_config(chk, module, cfg, ov,
                    lambda rec, i: {"rec": rec, "seed": chk.seed, "modes": modes, "rot": (i + chk.seed) % rots},
                    "harness.segments", "replay_segments_case", sample_fn=sample_fn, simulate=walks, depth=depth,
-                   expect_all_states=False,
+                   expect_all_states=False, workers=(1 if walks == 1 else 16),
                    label="%s %s simulate %d walks of depth %d" % (cfg, ov, walks, depth))
     # TRACE (code -> spec): the repository's own scenario / data files, parsed by the independent structural parser,
     # are run through the reader model (Trace_Segments.tla) and compared with what TdmsFile.read observed
